@@ -442,7 +442,7 @@ pub fn run(ctx: &mut Ctx) {
         let n = RegistryKey::try_from(k).unwrap().next().as_u32();
         if n == default || (k == default - 1) != (n == 0) { ctx.oracle_fail("registry-key-next", &format!("key {k}"), &format!("next = {n}")); }
     }
-    let nseq = ctx.n(24, 600);
+    let nseq = ctx.n(24, 400);
     let mut seed = ctx.seed.wrapping_mul(1_000_003);
     for s in 0..nseq {
         let (size, start) = match s % 6 { 5 => (1, 0), 0 => (2, 0), 1 => (3, 1), 2 => (6, 0), 3 => (default, default - 1 - ctx.rng.below(6) as u32), _ => (default, 0) };
